@@ -14,6 +14,7 @@ import (
 	"strings"
 	"testing"
 	"testing/synctest"
+	"time"
 
 	"i2psim.local/sim/adapters"
 	"i2psim.local/sim/consume"
@@ -152,6 +153,19 @@ func (World) Generate(r *engine.RNG, tier string) *engine.Script {
 	if prop == "C06" {
 		faultRate = 0
 	}
+	if prop != "C06" {
+		// the floodfill keeps running: what it rejected is delivered to it again at
+		// the end of the run, after a pause and (in some runs) after it has verified
+		// this many other, honest stores of the same kind
+		if r.Chance(1, 2) {
+			s.Config["redeliver_after_s"] = int64(r.PickInt(0, 1, 60, 3600, 90000))
+		}
+		if r.Chance(1, 30) {
+			s.Config["redeliver_after_s"] = int64(r.PickInt(0, 1, 60, 3600))
+			s.Config["traffic"] = int64(r.PickInt(40, 300, 300, 600, 1100))
+			s.Config["traffic_seed"] = int64(r.Uint64() >> 1)
+		}
+	}
 	for i := 0; i < n; i++ {
 		kind := kinds[r.Intn(len(kinds))]
 		if prop == "C06" && kind == "mls" {
@@ -219,6 +233,7 @@ type message struct {
 	idKey    []byte
 	faults   []string
 	replayed bool
+	tag      int64
 }
 
 func applyShapeFault(sh *engine.Shape, f *engine.Fault) bool {
@@ -939,7 +954,8 @@ func executeC05(s *engine.Script, o *engine.Outcome) {
 		}
 		byTag[f.At] = append(byTag[f.At], f)
 	}
-	var recorded []*message
+	var recorded, rejected []*message
+	defer func() { redeliver(s, o, rejected) }()
 	for i := range s.Ops {
 		op := &s.Ops[i]
 		if op.Op != "publish" || op.Shape == nil || len(op.N) == 0 {
@@ -1004,6 +1020,86 @@ func executeC05(s *engine.Script, o *engine.Outcome) {
 		o.Tag("(structure, signing types, faults applied, parsed, accepted)", fmt.Sprintf("%s/%s/%v/%v/%v", m.kind, sigLabel, uniq(append([]string(nil), m.faults...)), parsed, accepted))
 		o.FP.Step("msg", i, m.kind, len(m.raw), parsed, accepted, ref.OK)
 		recorded = append(recorded, m)
+		if !accepted && !ref.OK && len(m.faults) > 0 {
+			m.tag = op.N[0]
+			rejected = append(rejected, m)
+		}
+	}
+}
+
+// redeliver: the decision about a store is a function of its bytes, not of
+// what else the floodfill has seen. Every message that the library and the
+// reference both rejected is delivered once more at the end of the run, after
+// a pause on the simulated clock and after the floodfill has verified
+// Config["traffic"] other honest stores of the same kinds; a message that is
+// accepted now is a forged structure that the library accepts.
+func redeliver(s *engine.Script, o *engine.Outcome, rejected []*message) {
+	gap, ok := s.Config["redeliver_after_s"]
+	if !ok || len(rejected) == 0 {
+		return
+	}
+	if gap > 0 {
+		time.Sleep(time.Duration(gap) * time.Second)
+		o.SimSeconds += float64(gap)
+	}
+	if n := s.Config["traffic"]; n > 0 {
+		r := engine.NewRNG(uint64(s.Config["traffic_seed"]))
+		var ks []string
+		for _, m := range rejected {
+			if !has(ks, m.kind) {
+				ks = append(ks, m.kind)
+			}
+		}
+		if len(ks) > 2 {
+			ks = ks[:2]
+		}
+		if n > 2000 {
+			n = 2000
+		}
+		for _, kind := range ks {
+			good := 0
+			for i := int64(0); i < n; i++ {
+				sh := genShape(r.Fork(), kind, false)
+				if sh.N > 3 {
+					sh.N = 3
+				}
+				fr, err := refmodel.Build(sh)
+				if err != nil {
+					continue
+				}
+				idSig, idKey := 0, []byte(nil)
+				if fr.Ident != nil {
+					idSig, idKey = fr.Ident.Sig, fr.Ident.Key.Pub
+				}
+				if kind == "offsig" {
+					idSig, idKey = sh.Sig, refmodel.NewSignKey(sh.IdentSeed, sh.Sig).Pub
+				}
+				var acc bool
+				o.Guard("floodfill traffic "+kind, func() {
+					acc, _, _, _ = floodfill(kind, append([]byte(nil), fr.Bytes...), idSig, idKey)
+				})
+				if acc {
+					good++
+				}
+			}
+			o.Fault("other-honest-stores-verified-before-redelivery")
+			o.Probe(fmt.Sprintf("traffic_accepted:%s:%d-of-%d", kind, good/100*100, n))
+		}
+	}
+	for _, m := range rejected {
+		var acc bool
+		o.Guard("floodfill again "+m.kind, func() {
+			acc, _, _, _ = floodfill(m.kind, append([]byte(nil), m.raw...), m.idSig, m.idKey)
+		})
+		o.Fault("redelivery-of-a-rejected-message")
+		o.FP.Step("again", m.tag, acc)
+		if acc {
+			names := append([]string(nil), m.faults...)
+			sort.Strings(names)
+			o.Violate("C05/library-accepts-on-a-later-delivery-what-it-and-the-reference-rejected/"+m.kind,
+				"message %d (%s, faults %v): rejected when first delivered, Verify succeeded when the same bytes were delivered again %ds and %d other verified stores later", m.tag, m.kind, uniq(names), gap, s.Config["traffic"])
+			o.Notes[fmt.Sprintf("msg%d_delivered_hex", m.tag)] = fmt.Sprintf("%x", m.raw)
+		}
 	}
 }
 
@@ -1154,7 +1250,7 @@ func c06Check(o *engine.Outcome, sh *engine.Shape, count bool, ef *engine.Fault,
 	}
 	if wire != nil {
 		// the transport keeps the very slice Bytes() handed out
-		*wire = inflight{b: b, snap: append([]byte(nil), b...), kind: sh.Kind, idSig: c.idSig, idKey: c.idKey, label: c06Label(sh)}
+		*wire = inflight{b: b, snap: append([]byte(nil), b...), kind: sh.Kind, idSig: c.idSig, idKey: c.idKey, label: c06Label(sh), held: c}
 	}
 	return "", ""
 }
@@ -1170,6 +1266,7 @@ type inflight struct {
 	label     string
 	op        int
 	deliverAt int
+	held      *constructed // the publisher keeps the value too
 }
 
 func deliverHeld(o *engine.Outcome, p *inflight, now int) {
@@ -1186,6 +1283,29 @@ func deliverHeld(o *engine.Outcome, p *inflight, now int) {
 		o.Violate("C06/serialisation-changed-after-it-was-handed-out/"+p.label, "op %d %s: the slice Bytes() returned was rewritten while the publisher constructed other structures (it still parses and verifies, as something else)", p.op, p.kind)
 	}
 	o.FP.Step("delayed-delivery", p.op, parsed, accepted, changed)
+	if p.held == nil || !parsed || !accepted {
+		return
+	}
+	// the publisher still holds the value it constructed: it verified then, so it
+	// verifies now, and publishing it again sends what was signed
+	var verr, berr error
+	var b2 []byte
+	if o.Guard("verify/serialise held value", func() { verr = p.held.verify(); b2, berr = p.held.bytes() }) {
+		return
+	}
+	o.FP.Step("held-value", p.op, verr == nil, berr == nil, bytes.Equal(b2, p.snap))
+	switch {
+	case verr != nil:
+		o.Violate("C06/constructed-value-no-longer-verifies-after-later-constructions/"+p.label, "op %d %s: the value verified when it was constructed; %d operations later Verify on the same value fails: %s", p.op, p.kind, now-p.op, short(verr))
+	case berr != nil || !bytes.Equal(b2, p.snap):
+		var acc2 bool
+		o.Guard("floodfill (republished)", func() { acc2, _, _, _ = floodfill(p.kind, append([]byte(nil), b2...), p.idSig, p.idKey) })
+		if berr != nil || !acc2 {
+			o.Violate("C06/constructed-value-serialised-after-later-constructions-does-not-verify/"+p.label, "op %d %s: serialised again %d operations later the value gives other bytes (err %v) which do not parse and verify", p.op, p.kind, now-p.op, berr)
+		} else {
+			o.Probe("held_value_serialises_differently_but_verifies:" + p.kind)
+		}
+	}
 }
 
 // useDeny: methods that are not read-only uses of a constructed value.
